@@ -297,6 +297,18 @@ func docFor(res *Result, iri string) (J, string) {
 	if f, ok := w.Fate[iri]; ok {
 		return nil, f
 	}
+	if res.faultedDeref == nil {
+		// the fault plan is part of the world the models see: a Dereference made to fail makes that IRI unreachable
+		res.faultedDeref = map[string]bool{}
+		for _, e := range res.Sim.Log {
+			if e.Kind == "tp.Dereference" && e.Fault {
+				res.faultedDeref[e.ID] = true
+			}
+		}
+	}
+	if res.faultedDeref[iri] {
+		return nil, "unreachable"
+	}
 	if store, ok := res.Before[hostOf(iri)]; ok {
 		if raw, ok := store[iri]; ok {
 			return mustParseJ([]byte(raw)), "ok"
